@@ -833,7 +833,8 @@ func (g *c09DocGen) foreign() {
 		// processing instructions and CDATA sections: well-formed XML (the former finding c09-svg:quote, fixed in 5054993)
 		for k := 1 + g.r.Intn(3); k > 0; k-- {
 			g.buf = append(g.buf, g.r.PickStr([]string{"<text>5\" pipe</text>", "<a title='it\"s'/>", "\"", "'", "it's", "<t>'a\"</t>",
-				"<a t='>\"</" + name + ">'/>", "<a t=\">'</" + name + ">\" u='\"'>", "<!-- \" ' -->", "<?pi \"'?>", "<![CDATA[\"']]>", "<b x=\"'\" y='\"'>\"</b>"})...)
+				"<a t='>\"</" + name + ">'/>", "<a t=\">'</" + name + ">\" u='\"'>", "<!-- \" ' -->", "<?pi \"'?>", "<![CDATA[\"']]>", "<b x=\"'\" y='\"'>\"</b>",
+				"<!-- </" + name + "> -->", "<![CDATA[</" + name + ">]]>", "<?pi </" + name + ">?>", "<!---->", "<![CDATA[]]]>", "<!-- <a b=\" -->", "<?x?>"})...)
 		}
 		quote = true
 	}
@@ -964,6 +965,7 @@ var c09Tricky = []string{
 	"<style></style>", "<style>a</STYLE\n>b", "<title></title-x>b</title>", "<textarea></textarea x>", "<xmp><b></xmp>", "<iframe></iframes></iframe>", "<plaintext>a</plaintext><b>", "<PlainText/>x",
 	"<svg><text>5\" pipe</text></svg><p>", "<svg a='>\"</svg>'>x</svg>y", "<svg a=\">'</svg>\">'</svg>y", "<math><!-- \" --></math>x", "<svg><?pi '?></svg>x", "<svg><![CDATA[\"]]></svg>x", "<svg a=\"", "<svg a='\x00'></svg>", "<svg>'<a b=\"</svg>\"></svg>x", "<svg/></svg>x", "<svg '>'></svg>x", "<svg>\"</svg>'</svg>", "<xml a=\"'\" b='\"'>\"'</xml>x", "<svg><</svg>", "<svg><!a \"></svg>", "<svg><a\"></svg>\"></svg>x",
 	"<svg><!-- </svg> --><g/></svg>x", "<svg><![CDATA[</svg>]]></svg>x", "<math><!--</math>--></math>", "<svg><?pi </svg>?></svg>",
+	"<svg><!--</svg>", "<svg><![CDATA[</svg>]]", "<svg><?pi </svg>?", "<svg><!---></svg>x", "<svg><!----></svg>x", "<svg><!--></svg>--></svg>x", "<svg><![CDATA[]]]></svg>x", "<svg><![CDATA[]]></svg>x", "<svg><![CDATA[", "<svg><![CDAT[</svg>]]>", "<svg><!-- \x00 --></svg>x", "<svg><![CDATA[\x00]]></svg>", "<svg><?\x00?></svg>", "<svg><?></svg>x", "<svg><??></svg>x", "<svg><?", "<svg a='<!--'></svg>x", "<svg><!-- ' \" --><a b='-->'/></svg>x", "<math><?x?><![CDATA[a]]><!----></math>y", "<svg><!-</svg>", "<svg><!></svg>x",
 	"<svg></SVG>", "<svg><path d=\"</svg>\"/></svg>x", "<svg>\"</svg>", "<svg></svgx></svg >", "<svg", "<svg>", "<svg></svg", "<svg>\x00</svg><svg></svg>x<math></math>", "<math></MATH>", "<xml></xml>", "<svgx></svgx>",
 	"a<b", "a< b", "a<", "a<1", "<a>\x00</a>", "\x00", "a\x00<b>\x00</b>", "<a\x00b=c\x00>", "</a\x00>", "<a b='\x00'>", "</\x00", "</\x00>", "<\x00",
 	"</A B=C>", "</A X=Y \f>", "</Ab/Cd>", "</A\tB='C D'/>", "</a\f>", "</a \f >", "</a\f", "</A", "</AB>", "</", "<A B=C>",
